@@ -14,15 +14,23 @@ Four exhaustive enumerations against the real spec factories / providers / seria
                    absolute link to an ancestor inside the scratch area).
   B  deny list     B1: every declarative datasource kind x {Text, Raw} x {unfiltered, filtered} x every prefix
                    of every produced command line / path as deny entry (exact, prefix + space, prefix without
-                   space, longer; thorough: also every pair of entries) fed directly (blacklist.add_*) and
-                   through collect.apply_blacklist; B3: component names (implementation, registry point,
+                   space, longer) and pairs of entries (quick: every pair "denying prefix x non-denying prefix" of
+                   one produced item; thorough: every pair) in BOTH iteration orders of the deny table - the
+                   entries are mc.forcedhash.HStr objects, so the set order is chosen by the harness (recorded in
+                   the case as `hashes`, verified after feeding), not inherited from PYTHONHASHSEED - fed directly
+                   (blacklist.add_*) and through collect.apply_blacklist; B3: component names (implementation, registry point,
                    unknown) through apply_blacklist; B2: one real DefaultSpecs spec per factory kind with
                    symbolic names / component name / exact item / controls; B4: alias spellings (measurement).
                    Evaluated with dr.run under a recording HostContext subclass, open()/Popen audited,
                    component bodies watched with sys.setprofile.
   C  persistence   every provider family (file, command, container file, container command, DatasourceProvider)
                    x factory x save_as {none, x, dir/, absolute} x relative path / command string, persisted by
-                   the real Hydration (observer on dr.run) into T/o1/o2/out; file-system diff of the scratch area.
+                   the real Hydration (observer on dr.run) into T/o1/o2/out; content-aware diff of the scratch area:
+                   every created file beneath out, nothing that existed outside out modified / replaced / removed,
+                   nothing persisted beneath out is a link resolving outside out.
+                   C2: two-step histories into ONE archive - every ordered pair (factory x kind) A then B over the
+                   same path and save_as, plus colliding renames over different paths, on layouts whose links have
+                   absolute targets (a relative link / no link as controls).
   M  mangle        mangle_command over every token string: result is a single path component.
 
 Weaker readings taken on purpose (soundness):
@@ -54,6 +62,8 @@ RULE = ("A: full product layout x root-slash x context x provider kind x factory
         "B: datasource kind x (Text/Raw) x filtered x feeding route x every prefix of every produced command line/"
         "path as deny entry (non-trivial: the entry denies at least one produced item, or a component is disabled); "
         "C: provider family x factory x save_as x path/command string (non-trivial: a file was created by the persister); "
+        "C2: ordered pairs of file specs persisted into one archive (non-trivial: both produced providers and the second "
+        "wrote where the first had written); "
         "M: every token string (non-trivial: the raw string contains a path separator or a dot-dot)")
 ASSUMPTIONS = [
     "bounded: no counterexample within the stated path length / alphabet / layouts, nothing more",
@@ -94,11 +104,11 @@ TNAMES = list(TARGETS)
 
 BOUNDS = {
     "quick": {"A_path_segments_full": 3, "A_path_segments_existing_only": 4, "A_layouts": "none + 22 single links (each with and without trailing slash on the root) + 20 two-link chains",
-              "B_entries": "every prefix of every produced item, item+' x', item+'x'", "B_simultaneous_entries": 1,
-              "C_file_path_segments": 5, "C_layouts": 3, "C_cmd_tokens": 3, "C_label_segments": 5, "M_tokens": 5},
+              "B_entries": "every prefix of every produced item, item+' x', item+'x'", "B_simultaneous_entries": "prefix-related pairs (denying x non-denying prefix of one item), both table orders",
+              "C_file_path_segments": 5, "C_layouts": 3, "C2_path_segments": 2, "C2_layouts": 4, "C_cmd_tokens": 3, "C_label_segments": 5, "M_tokens": 5},
     "thorough": {"A_path_segments_full": 4, "A_path_segments_existing_only": 5, "A_layouts": "none + 22 single links (each with and without trailing slash on the root) + all 121 two-link pairs",
-                 "B_entries": "every prefix of every produced item, item+' x', item+'x'", "B_simultaneous_entries": 2,
-                 "C_file_path_segments": 5, "C_layouts": 8, "C_cmd_tokens": 4, "C_label_segments": 5, "M_tokens": 6},
+                 "B_entries": "every prefix of every produced item, item+' x', item+'x'", "B_simultaneous_entries": "all pairs", "B_table_orders": "both iteration orders of every pair (forced hashes)",
+                 "C_file_path_segments": 5, "C_layouts": 8, "C2_path_segments": 3, "C2_layouts": 8, "C_cmd_tokens": 4, "C_label_segments": 5, "M_tokens": 6},
 }
 CAP_S = {"quick": 600, "thorough": 3000}      # wall-clock guards only; the machine is shared, cost is tracked in CPU seconds
 
@@ -498,24 +508,46 @@ def b_build(variant, kind, filtered):
     return b
 
 
+B_ITEMS = {
+    "simple_file": ["/g/a", "/g/ab"], "glob_file": ["/g/a", "/g/ab", "/g/b"], "first_file": ["/g/a", "/g/ab", "/g/b"],
+    "foreach_collect": ["/g/a", "/g/ab", "/g/b"],
+    "simple_command": ["/bin/echo a b", "/bin/echo ab"], "command_with_args": ["/bin/echo a b", "/bin/echo ab c"],
+    "foreach_execute": ["/bin/echo a b", "/bin/echo ab", "/bin/echo a"],
+    "container_execute": ["/usr/bin/env exec c1 echo a b", "/usr/bin/env exec c12 echo a b"],
+    "container_collect": ["/usr/bin/env exec c1 cat /g/a", "/usr/bin/env exec c1 cat /g/ab", "/usr/bin/env exec c12 cat /g/a"],
+}
+
+
 def b_entries(variant):
     """Every prefix of every produced item, plus two longer strings per item. Deterministic order."""
-    items = {
-        "simple_file": ["/g/a", "/g/ab"], "glob_file": ["/g/a", "/g/ab", "/g/b"], "first_file": ["/g/a", "/g/ab", "/g/b"],
-        "foreach_collect": ["/g/a", "/g/ab", "/g/b"],
-        "simple_command": ["/bin/echo a b", "/bin/echo ab"], "command_with_args": ["/bin/echo a b", "/bin/echo ab c"],
-        "foreach_execute": ["/bin/echo a b", "/bin/echo ab", "/bin/echo a"],
-        "container_execute": ["/usr/bin/env exec c1 echo a b", "/usr/bin/env exec c12 echo a b"],
-        "container_collect": ["/usr/bin/env exec c1 cat /g/a", "/usr/bin/env exec c1 cat /g/ab", "/usr/bin/env exec c12 cat /g/a"],
-    }[variant]
     out = []
-    for it in items:
+    for it in B_ITEMS[variant]:
         for n in range(1, len(it) + 1):
             out.append(it[:n])
         out.append(it + " x")
         out.append(it + "x")
     seen = set()
     return [e for e in out if not (e in seen or seen.add(e))]
+
+
+def b_prefix_pairs(variant):
+    """Pairs of deny entries that are both string prefixes of one produced item, one of them denying it under the
+    documented rule and the other one not (a mid-word prefix, or a prefix ending in a blank): the lists where an
+    implementation that stops at the first string-prefix entry goes wrong.  Unordered, deterministic order."""
+    etype = "file" if variant in FILE_VARIANTS else "command"
+    ents = b_entries(variant)
+    out, seen = [], set()
+    for it in B_ITEMS[variant]:
+        pre = [e for e in ents if it.startswith(e)]
+        den = [e for e in pre if ref_denied(it, [e], etype)]
+        non = [e for e in pre if not ref_denied(it, [e], etype)]
+        for d in den:
+            for n in non:
+                key = (d, n)
+                if key not in seen:
+                    seen.add(key)
+                    out.append([d, n])
+    return out
 
 
 def ref_denied(item, entries, etype):
@@ -596,14 +628,30 @@ def b_observe(built, root, base, seeds=None, watch=()):
             "blacklisted": list(I["blacklist"].BLACKLISTED_SPECS)}
 
 
-def b_feed(feed, etype, entry):
+def b_feed(feed, etype, entries, hashes=None):
+    """Feeds the deny entries.  The deny tables are sets: their iteration order is owned by the harness - the
+    entries are str subclasses with forced hashes (mc.forcedhash.HStr, equal to the plain text), so the table
+    iterates in ascending order of `hashes`.  The order really obtained is verified."""
+    from mc.forcedhash import HStr
     I = imp()
+    bl = I["blacklist"]
+    table = bl._FILE_FILTERS if etype == "file" else bl._COMMAND_FILTERS
+    if not entries:
+        return
+    if table:
+        raise RuntimeError("deny table not empty before the case: %r" % (sorted(table),))
+    hashes = list(hashes) if hashes is not None else list(range(len(entries)))
+    objs = [HStr(t, h) for t, h in zip(entries, hashes)]
     if feed == "direct":
-        (I["blacklist"].add_file if etype == "file" else I["blacklist"].add_command)(entry)
+        for o in objs:
+            (bl.add_file if etype == "file" else bl.add_command)(o)
     elif feed == "apply_blacklist":
-        I["collect"].apply_blacklist({"files" if etype == "file" else "commands": [entry]})
+        I["collect"].apply_blacklist({"files" if etype == "file" else "commands": objs})
     else:
         raise ValueError(feed)
+    want = [t for _h, t in sorted(zip(hashes, entries))]
+    if [str(x) for x in table] != want:
+        raise RuntimeError("forced iteration order not obtained: %r != %r" % ([str(x) for x in table], want))
 
 
 def b_judge(specs, entries, etype, obs, root):
@@ -674,17 +722,20 @@ def b4_check(case):
     return viols, {"nontrivial": bool(reached), "outcome": "B4:%s:%d" % (case["alias"], reached), "alias_reached": reached}
 
 
-def b1_check(case):
-    """case: {"part":"B1","variant","kind","filtered","feed","entries": [0, 1 or 2 deny entries]}"""
+def b1_check(case, env=None):
+    """case: {"part":"B1","variant","kind","filtered","feed","entries": [0..2 deny entries], "hashes": forced hashes
+    (= position of each entry in the deny table's iteration order)}"""
     variant, etype = case["variant"], ("file" if case["variant"] in FILE_VARIANTS else "command")
-    with scratch("c06b") as base:
-        T, root = E.build_universe(base, extra_files=B_FILES)
+    with (scratch("c06b") if env is None else _nullctx(env)) as base:
+        if env is None:
+            T, root = E.build_universe(base, extra_files=B_FILES)
+        else:
+            base, T, root = env
         with E.GlobalState():
             built = b_build(variant, case["kind"], case["filtered"])
             try:
                 entries = list(case["entries"])
-                for e in entries:
-                    b_feed(case["feed"], etype, e)
+                b_feed(case["feed"], etype, entries, case.get("hashes"))
                 obs = b_observe(built, root, base)
                 specs = [dict(s) for s in built.specs]
                 viols = b_judge(specs, entries, etype, obs, root)
@@ -692,9 +743,21 @@ def b1_check(case):
             finally:
                 built.dispose()
     n_items = sum(len(v) for v in obs["got"].values())
-    info = {"nontrivial": denies, "outcome": "B1:%s:%s:%d:%d" % (variant, "deny" if denies else "pass", n_items, len(obs["lines"])),
+    info = {"nontrivial": denies, "outcome": "B1:%s:%s:%d:%d:%d" % (variant, "deny" if denies else "pass", len(case["entries"]),
+                                                                   n_items, len(obs["lines"])),
             "executed": len(obs["lines"]), "opened": len(obs["opens"])}
     return viols, info
+
+
+class _nullctx(object):
+    def __init__(self, v):
+        self.v = v
+
+    def __enter__(self):
+        return self.v[0]
+
+    def __exit__(self, *a):
+        return False
 
 
 def b3_check(case):
@@ -869,13 +932,21 @@ def run_B(unit, tier, res):
     sub = unit["sub"]
     if sub == "B1":
         ents = b_entries(unit["variant"])
-        sets = [[]] + [[e] for e in ents]
-        if BOUNDS[tier]["B_simultaneous_entries"] >= 2:
-            sets += [list(c) for c in itertools.combinations(ents, 2)]
-        for entries in sets:
-            case = {"part": "B1", "variant": unit["variant"], "kind": unit["kind"], "filtered": unit["filtered"],
-                    "feed": unit["feed"], "entries": entries}
-            _record(res, case, b1_check)
+        sets = [([], [])] + [([e], [0]) for e in ents]
+        if BOUNDS[tier]["B_simultaneous_entries"] == "all pairs":
+            pairs = [list(c) for c in itertools.combinations(ents, 2)]
+        else:
+            pairs = b_prefix_pairs(unit["variant"])
+        for p in pairs:                     # both iteration orders of the deny table
+            sets.append((p, [0, 1]))
+            sets.append((p, [1, 0]))
+        with scratch("c06b") as base:       # the deny-list cases never modify the universe: one per unit
+            T, root = E.build_universe(base, extra_files=B_FILES)
+            for entries, hashes in sets:
+                case = {"part": "B1", "variant": unit["variant"], "kind": unit["kind"], "filtered": unit["filtered"],
+                        "feed": unit["feed"], "entries": entries, "hashes": hashes}
+                _record(res, case, lambda c: b1_check(c, (base, T, root)))
+        res.stat("B_entry_pairs_both_orders", len(pairs))
     elif sub == "B3":
         for variant in FILE_VARIANTS + CMD_VARIANTS:
             for kind in (KINDS if variant in FILE_VARIANTS else ["Text"]):
@@ -931,25 +1002,24 @@ def save_as_value(sa, T):
     return sa
 
 
-def c_build(case, T):
-    """Declares one spec producing the provider(s) of the case."""
+def c_add_spec(b, name, case, T):
+    """Declares one spec (registry point `name`) producing the provider(s) described by `case`."""
     I = imp()
     sf, HC = I["sf"], I["cx"].HostContext
     fam = case["family"]
     sa = save_as_value(case.get("save_as"), T)
-    b = Built()
     if fam == "file":
         k = kind_class(case["kind"])
         raw = case["kind"] == "Raw"
         f, p = case["factory"], case["path"]
         if f == "simple_file":
-            b.add("s", sf.simple_file(p, save_as=sa, context=HC, kind=k), "single", [], "file", raw=raw)
+            b.add(name, sf.simple_file(p, save_as=sa, context=HC, kind=k), "single", [], "file", raw=raw)
         elif f == "first_file":
-            b.add("s", sf.first_file(["c06-absent", p], save_as=sa, context=HC, kind=k), "first", [], "file", raw=raw)
+            b.add(name, sf.first_file(["c06-absent", p], save_as=sa, context=HC, kind=k), "first", [], "file", raw=raw)
         elif f == "glob_file":
-            b.add("s", sf.glob_file(p, save_as=sa, context=HC, kind=k), "multi", [], "file", multi_output=True, raw=raw)
+            b.add(name, sf.glob_file(p, save_as=sa, context=HC, kind=k), "multi", [], "file", multi_output=True, raw=raw)
         elif f == "foreach_collect":
-            b.add("s", sf.foreach_collect(b.source([p]), "%s", save_as=sa, context=HC, kind=k), "multi", [], "file",
+            b.add(name, sf.foreach_collect(b.source([p]), "%s", save_as=sa, context=HC, kind=k), "multi", [], "file",
                   multi_output=True, raw=raw)
         else:
             raise ValueError(f)
@@ -957,20 +1027,20 @@ def c_build(case, T):
         cmd = "/bin/echo " + expand_tokens(case["tokens"])
         f = case["factory"]
         if f == "simple_command":
-            b.add("s", sf.simple_command(cmd, save_as=sa, context=HC), "single", [], "command")
+            b.add(name, sf.simple_command(cmd, save_as=sa, context=HC), "single", [], "command")
         elif f == "command_with_args":
-            b.add("s", sf.command_with_args("/bin/echo %s", b.source(expand_tokens(case["tokens"])), save_as=sa, context=HC),
+            b.add(name, sf.command_with_args("/bin/echo %s", b.source(expand_tokens(case["tokens"])), save_as=sa, context=HC),
                   "single", [], "command")
         elif f == "foreach_execute":
-            b.add("s", sf.foreach_execute(b.source([expand_tokens(case["tokens"]), "plain"]), "/bin/echo %s", context=HC),
+            b.add(name, sf.foreach_execute(b.source([expand_tokens(case["tokens"]), "plain"]), "/bin/echo %s", context=HC),
                   "multi", [], "command", multi_output=True)
         elif f == "container_execute":
-            b.add("s", sf.container_execute(b.source([("img", "env", "c1")]), cmd.replace("%", "%%"), context=HC),
+            b.add(name, sf.container_execute(b.source([("img", "env", "c1")]), cmd.replace("%", "%%"), context=HC),
                   "multi", [], "command", multi_output=True)
         else:
             raise ValueError(f)
     elif fam == "container_file":
-        b.add("s", sf.container_collect(b.source([("img", "env", "c1", "/" + case["path"])]), context=HC),
+        b.add(name, sf.container_collect(b.source([("img", "env", "c1", "/" + case["path"])]), context=HC),
               "multi", [], "command", multi_output=True)
     elif fam == "datasource_provider":
         path = case["path"]
@@ -979,15 +1049,27 @@ def c_build(case, T):
         def c06_label(broker):
             return DP(content=["labelled content"], relative_path=path, save_as=sa, ctx=broker[HC])
         c06_label.__module__ = b.modname
-        c06_label.__qualname__ = c06_label.__name__ = "c06_label"
+        c06_label.__qualname__ = c06_label.__name__ = "c06_label_" + name
         ds = I["plugins"].datasource(HC)(c06_label)
-        b.add("s", ds, "single", [], "file")
+        b.add(name, ds, "single", [], "file")
     else:
         raise ValueError(fam)
+
+
+def c_build(case, T):
+    """Spec set of a persistence case: one spec, or two specs `sa`, `sb` persisted one after the other (part C2)."""
+    b = Built()
+    if case["part"] == "C2":
+        c_add_spec(b, "sa", case["a"], T)
+        c_add_spec(b, "sb", case["b"], T)
+    else:
+        c_add_spec(b, "s", case, T)
     return b.finish()
 
 
 def c_features(case, created_outside):
+    if case["part"] == "C2":
+        return {"persist_escape_via": "two_step_history", "provider_family": "file"}
     fam = case["family"]
     sa = case.get("save_as")
     via = "other"
@@ -1000,13 +1082,19 @@ def c_features(case, created_outside):
 
 
 def c_check_on(base, T, root, case):
-    """One persistence case on an existing universe; leaves the universe as it found it."""
+    """One persistence case (one spec, or a two-step history into ONE archive) on an existing universe; leaves the
+    universe as it found it.  Observed through a content-aware snapshot of the whole scratch area before / after:
+      * every created file lies beneath the output directory,
+      * nothing that existed outside the output directory was modified, replaced or removed,
+      * nothing persisted beneath the output directory is (or passes through) a link that resolves outside of it -
+        "created beneath the output directory" means the content lives there."""
     I = imp()
     dr = I["dr"]
     out = os.path.join(T, "o1", "o2", "out")
     os.makedirs(out)
-    before = E.snapshot(base)
+    before = E.snapshot_full(base)
     viols = []
+    mid = None
     with E.GlobalState():
         built = c_build(case, T)
         try:
@@ -1016,48 +1104,138 @@ def c_check_on(base, T, root, case):
             broker[I["cx"].HostContext] = ctx
             h = I["Hydration"](out, ctx)
             broker.add_observer(h.make_persister(set(s["rp"] for s in built.specs)))
-            dr.run(built.graph(), broker)
-            v = broker.get(built.specs[0]["rp"])
-            nprov = len(v) if isinstance(v, list) else (1 if v is not None else 0)
+            nprovs = []
+            for i, sp in enumerate(built.specs):        # one dr.run per spec, in order, same broker, same archive
+                with E.quiet_stderr():
+                    dr.run(dr.get_dependency_graph(sp["rp"]), broker)
+                v = broker.get(sp["rp"])
+                nprovs.append(len(v) if isinstance(v, list) else (1 if v is not None else 0))
+                if i == 0 and len(built.specs) > 1:
+                    mid = E.snapshot_full(base)
         finally:
             built.dispose()
-    after = E.snapshot(base)
+    after = E.snapshot_full(base)
+    nprov = nprovs[0]
     created = sorted(set(after) - set(before))
     out_rel = os.path.relpath(out, base)
-    files_in = files_out = dirs_out = 0
+    realout = os.path.realpath(out)
+    par = os.path.dirname(T)
+
+    def inside_out(rel):
+        return rel == out_rel or rel.startswith(out_rel + os.sep)
+
+    def disp(rel):
+        return os.path.relpath(os.path.join(base, rel), par)
+
+    files_out = dirs_out = 0
     outside = []
     for rel in created:
-        inside = rel == out_rel or rel.startswith(out_rel + os.sep)
-        if after[rel] == "dir":
-            if not inside:
+        if after[rel][0] == "dir":
+            if not inside_out(rel):
                 dirs_out += 1
             continue
-        if inside:
-            files_in += 1
-        else:
+        if not inside_out(rel):
             files_out += 1
-            outside.append(os.path.relpath(os.path.join(base, rel), os.path.dirname(T)))
-    data_files = [r for r in created if after[r] != "dir" and r.startswith(os.path.join(out_rel, "data") + os.sep)]
+            outside.append(disp(rel))
+    data_files = [r for r in created if after[r][0] != "dir" and r.startswith(os.path.join(out_rel, "data") + os.sep)]
     if outside:
         viols.append(("persist:file-created-outside-output-dir", "every created file beneath T/o1/o2/out",
                       {"created_outside": outside}, c_features(case, outside)))
+    # existing entries outside the output directory: untouched
+    touched = []
+    for rel in sorted(before):
+        if inside_out(rel) or before[rel][0] == "dir" and rel in after and after[rel][0] == "dir":
+            continue
+        if rel not in after:
+            touched.append({"path": disp(rel), "was": before[rel][0], "now": "removed"})
+        elif after[rel] != before[rel]:
+            touched.append({"path": disp(rel), "was": before[rel][0], "now": after[rel][0],
+                            "content_now": (after[rel][1][:60].decode("utf-8", "replace") if isinstance(after[rel][1], bytes)
+                                            else after[rel][1])})
+    if touched:
+        viols.append(("persist:existing-file-outside-output-dir-modified",
+                      "nothing outside T/o1/o2/out is modified by persisting", {"modified_outside": touched[:4]},
+                      c_features(case, touched)))
+    # persisted entries: the content lives beneath the output directory
+    leaking = []
+    for rel in sorted(after):
+        if not inside_out(rel) or rel == out_rel:
+            continue
+        kind, payload = after[rel]
+        if kind == "link" or kind == "file":
+            rp = real(os.path.join(base, rel))
+            if not E.beneath(rp, realout):
+                leaking.append({"entry": disp(rel), "kind": kind, "link_target": show(payload, T) if kind == "link" else None,
+                                "resolves_to": show(rp, T)})
+    if leaking:
+        viols.append(("persist:persisted-entry-resolves-outside-output-dir",
+                      "every persisted entry resolves beneath T/o1/o2/out", {"entries": leaking[:4]},
+                      c_features(case, leaking)))
     # restore the universe for the next case of the unit
-    for rel in sorted(created, key=lambda r: -len(r)):
-        p = os.path.join(base, rel)
-        if os.path.islink(p) or not os.path.isdir(p):
-            try:
-                os.remove(p)
-            except OSError:
-                pass
-        else:
-            shutil.rmtree(p, ignore_errors=True)
-    shutil.rmtree(os.path.join(T, "o1"), ignore_errors=True)
+    if touched:
+        shutil.rmtree(os.path.join(base, E.HERMETIC[0]), ignore_errors=True)
+        E.build_universe(base, case["links"])
+    else:
+        for rel in sorted(created, key=lambda r: -len(r)):
+            p = os.path.join(base, rel)
+            if os.path.islink(p) or not os.path.isdir(p):
+                try:
+                    os.remove(p)
+                except OSError:
+                    pass
+            else:
+                shutil.rmtree(p, ignore_errors=True)
+        shutil.rmtree(os.path.join(T, "o1"), ignore_errors=True)
     meta_prefix = os.path.join(out_rel, "meta_data") + os.sep
-    content_files = [r for r in created if after[r] != "dir" and not r.startswith(meta_prefix)]
-    info = {"nontrivial": bool(content_files), "providers": nprov, "data_files": len(data_files), "dirs_out": dirs_out,
-            "outcome": "C:%s:%s:%s:p%d:in%d:out%d" % (case["family"], case.get("factory", "-"), case.get("save_as"),
-                                                     min(nprov, 2), min(len(data_files), 2), min(files_out, 2))}
+    content_files = [r for r in created if after[r][0] != "dir" and not r.startswith(meta_prefix)]
+    info = {"providers": nprov, "data_files": len(data_files), "dirs_out": dirs_out}
+    if case["part"] == "C2":
+        # measured: both steps produced providers and the second one created no new content file (it wrote where the first one had written)
+        step2_new = [r for r in after if r not in mid and after[r][0] != "dir" and not r.startswith(meta_prefix)]
+        collided = bool(nprovs[0] and nprovs[1] and not step2_new)
+        info["nontrivial"] = collided
+        info["outcome"] = "C2:%s>%s:%s:%s:%s" % (case["a"]["kind"], case["b"]["kind"], case["a"].get("save_as"),
+                                              "collide" if collided else "apart", "V" if viols else "-")
+    else:
+        info["nontrivial"] = bool(content_files)
+        info["outcome"] = "C:%s:%s:%s:p%d:in%d:out%d" % (case["family"], case.get("factory", "-"), case.get("save_as"),
+                                                      min(nprov, 2), min(len(data_files), 2), min(files_out, 2))
     return viols, info
+
+
+# two-step histories: layouts with absolute link targets (plus a relative link and no link as controls)
+C2_LAYOUTS = {
+    "quick": [[["l", "{T}/root/f"]], [["d/l", "{T}/root/f"]], [["l", "{T}/root"]], [["l", "f"]]],
+    "thorough": [[["l", "{T}/root/f"]], [["d/l", "{T}/root/f"]], [["l", "{T}/root"]], [["l", "{T}/root/d"]], [["l", "{B}"]],
+                 [["l", "{T}/root/f"], ["d/l", "{T}/root/d/f"]], [["l", "f"]], []],
+}
+C2_SAVE_AS = [None, "x", "dir/"]
+
+
+def c2_cases(root, tier, links):
+    """Every ordered pair (spec A, spec B) of file specs (factory x kind) persisted one after the other into one
+    archive over the same path with the same save_as; plus, for different paths, the colliding renames
+    (save_as x / dir/) with simple_file."""
+    n = BOUNDS[tier]["C2_path_segments"]
+    paths = [p for p in all_paths(SEG, 1, n) if os.path.isfile(os.path.join(root, p))]
+    fk = [(f, k) for f in C_FILE_FACTORIES for k in KINDS]
+    for p in paths:
+        for sa in C2_SAVE_AS:
+            for fa, ka in fk:
+                for fb, kb in fk:
+                    yield {"part": "C2", "links": links,
+                           "a": {"family": "file", "factory": fa, "kind": ka, "save_as": sa, "path": p},
+                           "b": {"family": "file", "factory": fb, "kind": kb, "save_as": sa, "path": p}}
+    for pa in paths:
+        for pb in paths:
+            if pa == pb:
+                continue
+            for sa in ("x", "dir/"):
+                for ka in KINDS:
+                    for kb in KINDS:
+                        yield {"part": "C2", "links": links,
+                               "a": {"family": "file", "factory": "simple_file", "kind": ka, "save_as": sa, "path": pa},
+                               "b": {"family": "file", "factory": "simple_file", "kind": kb, "save_as": sa, "path": pb}}
 
 
 def c_cases_file(root, tier, links):
@@ -1091,6 +1269,8 @@ def run_C(unit, tier, res):
         T, root = E.build_universe(base, unit["links"])
         if unit["family"] == "file":
             gen = c_cases_file(root, tier, unit["links"])
+        elif unit["family"] == "history":
+            gen = c2_cases(root, tier, unit["links"])
         else:
             gen = c_cases_other(tier, unit["family"])
         for case in enumx.shard(gen, unit["shard"], unit["of"]):
@@ -1177,6 +1357,9 @@ def units(tier, seed):
     for links in C_LAYOUTS[tier]:
         for i in range(4):
             us.append({"part": "C", "family": "file", "links": links, "shard": i, "of": 4})
+    for links in C2_LAYOUTS[tier]:
+        for i in range(4):
+            us.append({"part": "C", "family": "history", "links": links, "shard": i, "of": 4})
     for fam, n in (("command", 8), ("container_file", 2), ("datasource_provider", 4)):
         for i in range(n):
             us.append({"part": "C", "family": fam, "links": [], "shard": i, "of": n})
@@ -1220,7 +1403,7 @@ def replay(case):
         viols, _ = b3_check(case)
     elif part == "B4":
         viols, _ = b4_check(case)
-    elif part == "C":
+    elif part in ("C", "C2"):
         viols = replay_C(case)
     elif part == "M":
         viols, _ = m_check(case)
